@@ -4,6 +4,7 @@
    freedom (how many bytes a read/write moves, POLLOUT in the partially filled zone) an explicit choice.
    Only statements here; proofs live in Proofs/Comm*.v. *)
 From Coq Require Import List NArith Bool.
+Require SP.Lib.WinComm SP.Proofs.WinCommProofs.
 Require Import SP.Params SP.Lib.Comm SP.Kernel.CommK SP.Kernel.CommSys
                SP.Proofs.CommBase SP.Proofs.CommReady SP.Proofs.CommInv SP.Proofs.CommTerm SP.Proofs.CommThms.
 Import ListNotations.
@@ -73,6 +74,30 @@ Print Assumptions C01_write_chunk_fits.
 
 (* Non-vacuity: all three streams piped, 5000 bytes of input against a child that first writes 5000 bytes
    and only then reads: the initial state satisfies the hypotheses and a 12-step schedule is executable. *)
+Module Win.
+Import SP.Lib.WinComm SP.Proofs.WinCommProofs.
+Local Open Scope nat_scope.
+(* ---- the cfg(windows) variant: one helper thread per stream and a rendezvous channel (Lib/WinComm.v) ---- *)
+
+(* every step of every party (helper threads, receiving thread, child) decreases a measure: a read() is over after
+   at most wmu steps, whatever the schedule *)
+Theorem C01_win_read_bounded : forall chs s s', Forall not_start chs -> wrun s chs = Some s' -> (length chs + wmu s' <= wmu s)%nat.
+Proof. exact win_read_bounded. Qed.
+Print Assumptions C01_win_read_bounded.
+
+(* while a read() is in progress the system is never stuck: a helper, the receiving thread or the child can move
+   (the clock is not needed).  Holds since the repair of F17: a failed helper leaves helper_set. *)
+Theorem C01_win_never_stuck : forall s, WLive s -> call s <> None -> exists ch, progress_choice ch /\ wstep s ch <> None.
+Proof. exact win_never_stuck. Qed.
+Print Assumptions C01_win_never_stuck.
+
+Theorem C01_win_live_reachable : forall (pi po pe : bool) (ci co ce : nat) child input, (1 <= ci)%nat -> (1 <= co)%nat -> (1 <= ce)%nat ->
+  forall chs s, wrun (winit pi po pe ci co ce child input) chs = Some s -> WLive s.
+Proof. exact wlive_reachable. Qed.
+Print Assumptions C01_win_live_reachable.
+
+End Win.
+
 Example C01_nonvacuous :
   let g0 := ginit true true true 4096 4096 4096
                   [CWrite SOut (repeat 7%N 5000); CRead 100000; CWrite SErr [1%N]] (repeat 9%N 5000) None None in
